@@ -238,3 +238,7 @@ def run(ctx: Ctx, rep: Report, tier: str):
     from rules.common import wait_joins_unless_own_thread
     rep.rule("C15.R5", "a stopped engine is a joined engine: Runnable.wait joins the service thread whenever another thread runs it, also when a stop is already pending", 1)
     section(rep, lambda: wait_joins_unless_own_thread(ctx, rep, "C15.R5"))
+    from rules.decisions import decision_table, table_sites
+    rep.rule("C15.DT", "decision table (rules/decisions.json) of the functions that decide what runs under the state lock: for every function and every action shape the set of states - over the function's guard atoms, "
+             "including the `with` blocks and `try` scopes the action stands in - in which the action is taken equals the recorded one, and actions keep their order", 1)
+    section(rep, lambda: decision_table(ctx, rep, "C15.DT", "C15"))
